@@ -23,7 +23,9 @@ RULE = (
     "alphabet (plain fn term/None/raise, Converter with each takes_self x takes_field, default_if_none value/factory) x "
     "{standalone, __init__, __init__ on a default, assignment through setters.convert, setters.convert called directly} on "
     "the inputs [None, token, None, 0]; then random trees to depth 4 (pipe arity 0-4, functions that return a term / None "
-    "/ 0 / raise, fault rate 0-15%), 1-3 inputs from {None, tokens, 0, '', [], False}, random class configuration (attr.s / "
+    "/ 0 / raise, fault rate 0-15%), 1-3 inputs from {None, tokens, 0, '', [], False, a not-None object whose ==/!= claim "
+    "equality with everything incl. None (ANY-style), a falsy int-subclass instance whose == says it equals None} -- the "
+    "last two are ordinary non-None values for the model, so only an identity test passes --, random class configuration (attr.s / "
     "define / mutable / make_class, slots, frozen, kw_only, list-or-tuple form of a top-level pipe, hook on class or field, "
     "Factory spelling of default_if_none); in the class modes the class has 1-3 fields that SHARE the one converter object "
     "(harness-only variation: or equal objects built separately) plus 0-2 fields with a converter of their own in between, "
@@ -37,7 +39,11 @@ RULE = (
     "and a default that comes again is another instance of the SAME class, so calls and fresh factory results are judged per "
     "instance; a block of 8 object-producing trees (default_if_none(factory=) alone, in pipes, under optional, next to "
     "Converters) is used on [None, None, token, None] in every mode and default variant; a callback that runs outside a use "
-    "(class construction) is an outcome of its own; non-trivial = depth>=2 or a Converter. "
+    "(class construction) is an outcome of its own; 30% of the random classes and a dedicated block (5 trees x 3 name pairs "
+    "x shared/own in both orders x class modes) contain UNDERSCORE TWINS (`_x` next to `x`, the later one with an explicit "
+    "alias= so the init arguments differ; harness-only, the model does not look at names beyond forwarding the field): "
+    "each twin must be converted by its own converter in __init__, on a default and on assignment; "
+    "non-trivial = depth>=2 or a Converter. "
     "tobool: every letter-case variant of the 12 documented words, bools, ints and int-subclass instances, "
     "float/complex/Decimal/Fraction equal to -1,0,1,2, a pool of 23 unrelated objects, 54 near-miss strings (whitespace, "
     "Unicode look-alikes, Kelvin sign, dotted I) and random one-edit neighbours of the words in random case. din: all "
@@ -73,6 +79,7 @@ ASSUMPTIONS = [
     "Python's str.lower() is modelled by ASCII lowering: the twelve documented words consist of [a-z01] and the only non-ASCII character whose lower() is an ASCII letter is U+212A (Kelvin, 'k'), which no word contains; near-miss Unicode strings are part of the correspondence",
     "CPython pieces modelled as small functions and diff-tested, not proved: tuple membership (is/==) between the to_bool literals and bool/int/str/float/complex/Decimal/Fraction, frozenset membership of classes, strings and Attribute objects (Attribute.__eq__ = all settings but `inherited`, not the owning class), functools.total_ordering's twelve derivations and root choice, object's default rich comparisons, the operator protocol (reflected method, identity / TypeError fallback), implicit __hash__ = None",
     "filters: 'the Attribute itself is listed' is read as 'an Attribute equal (==) to it is listed' -- that is what frozenset membership gives and what the model mirrors",
+    "field names starting with two underscores are not generated (type()/make_class mangle such slot names, which no class body can produce)",
     "a __init__ that stores through object.__setattr__, _setattr or the instance dict is the same for this property; the class configuration is background variation the model is independent of",
 ]
 LEVEL_TEXT = (
